@@ -358,6 +358,9 @@ def build_handler(prog: dict, rec: Recorder):
                     raise UserError(f"child {path} raises")
                 if node.get("large"):
                     return ["L" * (CHECKPOINT_LIMIT + 10), inner]
+                if node.get("ser_size"):
+                    # a string whose default serialization ('"' + chars + '"') has exactly ser_size characters
+                    return "S" * (int(node["ser_size"]) - 2)
                 return inner
             cfg = None
             if node.get("summary"):
@@ -444,6 +447,8 @@ def build_handler(prog: dict, rec: Recorder):
         run_nodes(context, prog["nodes"], "", obs)
         if prog.get("final_large"):
             return ["F" * (6 * 1024 * 1024), obs]
+        if prog.get("final_raise_large"):
+            raise UserError("E" * (6 * 1024 * 1024))
         if prog.get("final_raise"):
             raise UserError("handler raises")
         return obs
